@@ -98,7 +98,7 @@ type world struct {
 	mu      sync.Mutex
 	plans   map[string]*plan // by rq
 	rn      atomic.Int64
-	wg      sync.WaitGroup // delayed peer replies
+	late    atomic.Int64 // delayed peer replies not sent yet
 	serveCh chan error
 	loop    *sess.PeerLoop
 	rh      *receipts.Handler
@@ -241,17 +241,27 @@ func (w *world) onPeer(n *xmltree.Node) {
 					typ = "error" // tracked messages and presences are only answered by errors
 				}
 			}
+			if rs.What == "receipt" {
+				w.log.add(ev{Ev: "deliver", RQ: rq, RN: rn, Kind: "message", Typ: "chat", ID: id, Note: "receipt/" + rs.When})
+				w.p.Peer.Write([]byte(fmt.Sprintf("<message type='chat' id='rc%d' rcpt='1' rn='%d'><received xmlns='urn:xmpp:receipts' id='%s'/></message>", rn, rn, esc(id))))
+				pl.sentOnce.Do(func() { close(pl.firstSent) })
+				return
+			}
 			w.log.add(ev{Ev: "deliver", RQ: rq, RN: rn, Kind: kind, Typ: typ, ID: rid, Note: rs.What + "/" + rs.When})
-			w.p.Peer.Write([]byte(fmt.Sprintf("<%s type='%s' id='%s' rn='%d' rq='%s'><r xmlns='%s' rn='%d' rq='%s'><c/><c/></r></%s>", kind, typ, esc(rid), rn, esc(rq), nsV, rn, esc(rq), kind)))
+			errEl := ""
+			if typ == "error" {
+				errEl = "<error type='cancel'><item-not-found xmlns='urn:ietf:params:xml:ns:xmpp-stanzas'/></error>"
+			}
+			w.p.Peer.Write([]byte(fmt.Sprintf("<%s type='%s' id='%s' rn='%d' rq='%s'><r xmlns='%s' rn='%d' rq='%s'><c/><c/></r>%s</%s>", kind, typ, esc(rid), rn, esc(rq), nsV, rn, esc(rq), errEl, kind)))
 			pl.sentOnce.Do(func() { close(pl.firstSent) })
 		}
 		switch rs.When {
 		case "now":
 			send()
 		default:
-			w.wg.Add(1)
+			w.late.Add(1)
 			go func() {
-				defer w.wg.Done()
+				defer w.late.Add(-1)
 				if rs.When == "after-cancel" {
 					<-pl.cancelled
 				} else {
